@@ -70,10 +70,11 @@ def build(d, b, rep=1, ra=1):
             p = os.path.join(d, 'seds', 'f%02d_%s_sed.fits' % (pos[(i, k)], cname(i, k)))
             vf = lambda a, w, i=i, k=k: kfac(k) * afac(a) * float(Fl(i, (a % 2) + 1, ng - w))
             ve = lambda a, w, i=i, k=k: kfac(k) * afac(a) * float(Er(i, (a % 2) + 1, ng - w))
+            fu = 'nufnu' if (i + k + b['tab'][0]) % 2 else 'mJy'      # SED files hold F_nu in mJy or nu F_nu in erg/cm2/s
             if sum(b['tab'][:2]) % 2:
-                pw.sed_object(cname(i, k), wav_m, aps, vf, ve, order).write(p)
+                pw.sed_object(cname(i, k), wav_m, aps, vf, ve, order, flux_unit=fu).write(p)
             else:
-                pw.write_sed_raw(p, cname(i, k), wav_m, aps, vf, ve, order, legacy_units=False)
+                pw.write_sed_raw(p, cname(i, k), wav_m, aps, vf, ve, order, legacy_units=bool((i + k) % 2), flux_unit=fu)
         pw.write_parameters(d, names)
     else:
         ids = [(i, k) for k in range(rep) for i in b['list']]
